@@ -1245,7 +1245,15 @@ fn gen_cases(rng: &mut Rng, thorough: bool) -> Vec<String> {
     let variants = ["json", "jsonnp", "msg"];
     let mut push = |ops: &mut Vec<String>, kind: &str, max: usize, seq: &[Beh]| {
         n += 1;
-        ops.push(format!("case c{n} {kind} {} {max} {}", variants[n % 3], show_seq(seq)));
+        if thorough && max <= 2 {
+            // every call variant
+            for v in variants {
+                let tag = match v { "json" => "j", "jsonnp" => "n", _ => "m" };
+                ops.push(format!("case c{n}{tag} {kind} {v} {max} {}", show_seq(seq)));
+            }
+        } else {
+            ops.push(format!("case c{n} {kind} {} {max} {}", variants[n % 3], show_seq(seq)));
+        }
     };
     // exhaustive part: every sequence of length <= bound
     let bounds: Vec<(usize, usize)> = if thorough { vec![(1, 3), (2, 4), (3, 5)] } else { vec![(1, 3), (2, 4), (3, 3)] };
@@ -1320,7 +1328,7 @@ fn main() {
     out.extra.insert("sniffer".into(), serde_json::json!(env.sniffer.is_some()));
     out.extra.insert("node_timeout_ms".into(), serde_json::json!(T_NODE.as_millis() as u64));
     out.extra.insert("retry_delay_ms".into(), serde_json::json!(DELAY.as_millis() as u64));
-    out.rule = "case = fresh Fleet/AsyncFleet + one scripted node: calls until the script is consumed (at most 2*len+1), then a healthy phase of up to 3 calls; all behaviour sequences over the 7-letter alphabet up to length max+2 (quick: max 1 up to length 3, max 2 up to length 4, max 3 up to length 3 + 300 sampled sequences of length 4-5; thorough: max 1..3 up to length max+2, exhaustive), both fleets, call variants json/jsonnp/msg in rotation; bc = every assignment of tag subsets to up to 3 (thorough 4) nodes x every requested subset (+ one duplicated tag), every 7th with a refusing node. Distinct by op line; non-trivial = a call retried, hit a dead cached client, or returned an error / a broadcast that selects a proper non-empty subset or has a refusing node".into();
+    out.rule = "case = fresh Fleet/AsyncFleet + one scripted node: calls until the script is consumed (at most 2*len+1), then a healthy phase of up to 3 calls; all behaviour sequences over the 7-letter alphabet up to length max+2 (quick: max 1 up to length 3, max 2 up to length 4, max 3 up to length 3 + 300 sampled sequences of length 4-5; thorough: max 1..3 up to length max+2, exhaustive), both fleets, call variants json/jsonnp/msg in rotation (thorough: all three for max 1,2); bc = every assignment of tag subsets to up to 3 (thorough 4) nodes x every requested subset (+ one duplicated tag), every 7th with a refusing node. Distinct by op line; non-trivial = a call retried, hit a dead cached client, or returned an error / a broadcast that selects a proper non-empty subset or has a refusing node".into();
     let mut ops: Vec<String> = match args.replay_ops() {
         Some(ops) => ops,
         None => gen_cases(&mut rng, args.thorough()),
